@@ -104,8 +104,10 @@ def decorate(scs, *, seed, calls_choices=(("invoke",), ("stream",), ("invoke", "
             if rnd.random() < 0.5:
                 sc["chunks"] = 2
         if anyout_frac and sc["mode"] in ("pregel", "dag") and sc.get("lower") != "chain" and rnd.random() < anyout_frac \
-                and sum(1 for e in sc["edges"] if e[1] == "end") == 1 and not any("end" in b["ends"] for b in sc["branches"]):
-            # the graph's output type differs from its input type (Graph[map, any]); one producer for END, so nothing is merged as `any`
+                and sum(1 for e in sc["edges"] if e[1] == "end") == 1 and not any("end" in b["ends"] for b in sc["branches"]) \
+                and not any(e[1] == "end" and e[0] in (sc.get("sub") or {}) for e in sc["edges"]):
+            # the graph's output type differs from its input type (Graph[map, any]); one producer for END and not a graph node (whose
+            # result may arrive in several chunks), so nothing is merged or concatenated as `any` (which the library refuses)
             sc["anyout"] = True
         sc["snodes"] = [n for n in sc["nodes"] if rnd.random() < snode_frac]
         for b in sc["branches"]:
